@@ -144,11 +144,23 @@ type rzStore struct {
 	// park points
 	parkAppend chan struct{} // non-nil: the next Append blocks here until closed
 	parkAfter  chan struct{}
+	parkOpen   chan struct{} // non-nil: the next Open blocks here until closed (an event store is an I/O boundary)
 }
 
 func (s *rzStore) Open(ctx context.Context, sess, stream string) error {
 	s.h.mu.Lock()
-	s.h.sawStream(sess, stream)
+	p := s.parkOpen
+	if stream != "" {
+		s.parkOpen = nil
+	} else {
+		p = nil
+	}
+	s.h.mu.Unlock()
+	if p != nil {
+		<-p
+	}
+	s.h.mu.Lock()
+	s.h.sawStream(sess, stream) // named when the Open takes effect
 	s.h.mu.Unlock()
 	return s.inner.Open(ctx, sess, stream)
 }
@@ -248,6 +260,11 @@ type rzHarness struct {
 	ncalls    map[string]int                  // per session: calls issued so far (jsonrpc2 numbers them 1,2,…)
 	cancelled map[string]chan struct{}        // handler key -> gate of a cancelled tool handler waiting to return
 	finishing bool
+	firsts    map[string]int // "<real session>\x00<real stream>" -> dataList.first last reported (evictions by the store)
+	maxBytes  int           // standing limit of the store set by `maxbytes` (0 = default)
+	yieldSite string        // one-shot: the next goroutine reaching this verifYield site parks
+	yieldGate chan struct{} // ... on this gate
+	yielded   bool          // a goroutine is parked at the site (the site is instrumented in this tree)
 }
 
 func (h *rzHarness) sawStream(sess, stream string) {
@@ -429,6 +446,20 @@ func rzNewHarness(t *testing.T, stateless, jsonMode, withStore bool) *rzHarness 
 		opts.EventStore = h.store
 	}
 	h.handler = NewStreamableHTTPHandler(func(*http.Request) *Server { return h.server }, opts)
+	// schedule points inside streamable.go (present only in a tree with fixes/hook-resume-yield.patch): between Write's
+	// routing section and its delivery section, between acquireStream's lookup and its stream-lock section
+	fn := func(site, detail string) {
+		h.mu.Lock()
+		if h.yieldSite != site || h.yieldGate == nil {
+			h.mu.Unlock()
+			return
+		}
+		gate := h.yieldGate
+		h.yieldSite, h.yielded = "", true
+		h.mu.Unlock()
+		<-gate
+	}
+	verifYieldHook.Store(&fn)
 	return h
 }
 
@@ -669,6 +700,7 @@ func (h *rzHarness) observe(snap ...string) string {
 	for _, a := range apps {
 		out = append(out, a.txt)
 	}
+	out = append(out, h.purgeTokens()...)
 	for _, x := range h.exchs {
 		for ; x.reported < len(x.items); x.reported++ {
 			it := x.items[x.reported]
@@ -689,6 +721,58 @@ func (h *rzHarness) observe(snap ...string) string {
 		out = append(out, h.snapshot(name))
 	}
 	return strings.Join(out, " ")
+}
+
+// purgeTokens reports what the in-memory event store has evicted since the last report: `p:<sess>:<stream>:<first>`
+// = the store now holds the log of that stream from index <first> on (read from the real dataList). Stateful
+// sessions only (there is no resumption in stateless mode). Called with h.mu held.
+func (h *rzHarness) purgeTokens() []string {
+	if h.store == nil || h.stateless {
+		return nil
+	}
+	type pt struct {
+		si    int
+		st    string
+		first int
+		name  string
+	}
+	var pts []pt
+	in := h.store.inner
+	in.mu.Lock()
+	for sess, sm := range in.store {
+		s := h.byReal[sess]
+		if s == nil {
+			continue
+		}
+		for stream, dl := range sm {
+			key := sess + "\x00" + stream
+			if dl.first != h.firsts[key] {
+				if h.firsts == nil {
+					h.firsts = map[string]int{}
+				}
+				h.firsts[key] = dl.first
+				pts = append(pts, pt{si: h.sessIndex(s), st: h.canonStream(s, stream), first: dl.first, name: s.name})
+			}
+		}
+	}
+	in.mu.Unlock()
+	sort.Slice(pts, func(i, j int) bool {
+		if pts[i].si != pts[j].si {
+			return pts[i].si < pts[j].si
+		}
+		return rzStreamLess(pts[i].st, pts[j].st)
+	})
+	var out []string
+	for _, p := range pts {
+		out = append(out, fmt.Sprintf("p:%s:%s:%d", p.name, p.st, p.first))
+	}
+	return out
+}
+
+func rzStreamLess(a, b string) bool {
+	x, _ := strconv.Atoi(strings.TrimLeft(a, "t"))
+	y, _ := strconv.Atoi(strings.TrimLeft(b, "t"))
+	return x < y
 }
 
 // snapshot reads the real streamableServerConn of a session (under its locks).
@@ -835,44 +919,27 @@ func (h *rzHarness) apply(toks []string) (obs string) {
 		return h.observe(toks[1])
 	case "call": // call <sess> ids=3,4 hv=<ver> b=<budget>
 		name := toks[1]
-		var s *rzSess
-		if h.stateless {
-			s = &rzSess{name: name, streams: map[string]string{}}
-			h.mu.Lock()
-			h.sessions = append(h.sessions, s)
-			h.current = s
-			h.mu.Unlock()
-		}
-		n := len(h.exchs) + 1
-		var parts []string
-		for _, id := range strings.Split(kv["ids"], ",") {
-			idn, _ := strconv.Atoi(id)
-			key := fmt.Sprintf("%s.%d.x%d", name, idn, n)
-			if s != nil {
-				h.mu.Lock()
-				h.pending[key] = s
-				h.mu.Unlock()
-			}
-			if kv["hv"] == "d" {
-				parts = append(parts, fmt.Sprintf(rzCallBodyNew, idn, key))
-			} else {
-				parts = append(parts, fmt.Sprintf(rzCallBody, idn, key))
-			}
-		}
-		body := parts[0]
-		if len(parts) > 1 {
-			body = "[" + strings.Join(parts, ",") + "]"
-		}
-		sessHdr := name
-		if h.stateless {
-			sessHdr = name // no header is sent: the session has no real id
-		}
-		r := rzReq{method: "POST", sess: sessHdr, version: rzVersion(kv["hv"]), body: body, budget: rzBudget(kv["b"])}
-		if kv["hv"] == "d" {
-			r.extra = map[string]string{"Mcp-Method": "tools/call", "Mcp-Name": "t"}
-		}
-		h.serve(r)
+		h.postCall(name, kv)
 		synctest.Wait()
+		return h.observe(name)
+	case "duprace": // duprace <sess> ids=<r> hv=<ver> : two POSTs carrying the same call id; the first is parked inside EventStore.Open while the second arrives
+		if h.store == nil || h.stateless {
+			return "bad-op"
+		}
+		name := toks[1]
+		park := make(chan struct{})
+		h.mu.Lock()
+		h.store.parkOpen = park
+		h.mu.Unlock()
+		h.postCall(name, kv) // A: sits inside Open
+		synctest.Wait()
+		h.postCall(name, kv) // B: same id(s)
+		synctest.Wait()
+		close(park)
+		synctest.Wait()
+		h.mu.Lock()
+		h.store.parkOpen = nil
+		h.mu.Unlock()
 		return h.observe(name)
 	case "listen": // listen <sess> id=<n> b=<budget> : stateless 2026-07-28 subscriptions/listen
 		name := toks[1]
@@ -976,6 +1043,25 @@ func (h *rzHarness) apply(toks []string) (obs string) {
 		cancel()
 		synctest.Wait()
 		return h.observe(toks[1])
+	case "purge": // purge <maxbytes> : the store is squeezed to <maxbytes> once (MemoryEventStore.SetMaxBytes purges), then relaxed again
+		if h.store == nil {
+			return "nostore"
+		}
+		n, _ := strconv.Atoi(toks[1])
+		if n < 1 {
+			n = 1
+		}
+		h.store.inner.SetMaxBytes(n)
+		h.store.inner.SetMaxBytes(h.maxBytes)
+		return h.observe()
+	case "maxbytes": // maxbytes <n> : the store keeps this limit from now on (0 = default): appends evict
+		if h.store == nil {
+			return "nostore"
+		}
+		n, _ := strconv.Atoi(toks[1])
+		h.maxBytes = n
+		h.store.inner.SetMaxBytes(n)
+		return h.observe()
 	case "kill": // kill <sess> : the transport is closed underneath the session
 		s := h.sessByName(toks[1])
 		if s == nil || s.conn == nil {
@@ -984,12 +1070,53 @@ func (h *rzHarness) apply(toks []string) (obs string) {
 		s.conn.Close()
 		synctest.Wait()
 		return h.observe(toks[1])
+	case "racerg": // racerg <emit args> | get-args… : the write is held between its routing and its delivery section while the GET runs
+		return h.raceRouted(toks)
 	case "racewg": // racewg <sess> <req> <x> <N|C> <c|d> <serial> | get-args… : the write takes the stream lock first
 		return h.race(toks, true)
 	case "racegw":
 		return h.race(toks, false)
 	}
 	return "bad-op"
+}
+
+// postCall starts one POST carrying tools/call requests with the given ids (handler keys <sess>.<id>.x<exchange>).
+func (h *rzHarness) postCall(name string, kv map[string]string) {
+	var s *rzSess
+	if h.stateless {
+		s = &rzSess{name: name, streams: map[string]string{}}
+		h.mu.Lock()
+		h.sessions = append(h.sessions, s)
+		h.current = s
+		h.mu.Unlock()
+	}
+	h.mu.Lock()
+	n := len(h.exchs) + 1
+	h.mu.Unlock()
+	var parts []string
+	for _, id := range strings.Split(kv["ids"], ",") {
+		idn, _ := strconv.Atoi(id)
+		key := fmt.Sprintf("%s.%d.x%d", name, idn, n)
+		if s != nil {
+			h.mu.Lock()
+			h.pending[key] = s
+			h.mu.Unlock()
+		}
+		if kv["hv"] == "d" {
+			parts = append(parts, fmt.Sprintf(rzCallBodyNew, idn, key))
+		} else {
+			parts = append(parts, fmt.Sprintf(rzCallBody, idn, key))
+		}
+	}
+	body := parts[0]
+	if len(parts) > 1 {
+		body = "[" + strings.Join(parts, ",") + "]"
+	}
+	r := rzReq{method: "POST", sess: name, version: rzVersion(kv["hv"]), body: body, budget: rzBudget(kv["b"])}
+	if kv["hv"] == "d" {
+		r.extra = map[string]string{"Mcp-Method": "tools/call", "Mcp-Name": "t"}
+	}
+	h.serve(r)
 }
 
 func (h *rzHarness) exch(tok string) *rzExch {
@@ -1094,6 +1221,9 @@ func (h *rzHarness) race(toks []string, writeFirst bool) string {
 	tag := strings.Join([]string{w[0], w[1], w[2], w[4], w[5]}, ".")
 	park := make(chan struct{})
 	var res func() string
+	// no eviction while the two parties race (which of them the store would evict under is not controlled here):
+	// the standing limit is lifted for the race and re-imposed — evicting — once both are done
+	h.store.inner.SetMaxBytes(0)
 	if writeFirst {
 		h.mu.Lock()
 		h.store.parkAppend = park
@@ -1116,7 +1246,64 @@ func (h *rzHarness) race(toks []string, writeFirst bool) string {
 	h.mu.Lock()
 	h.store.parkAppend, h.store.parkAfter = nil, nil
 	h.mu.Unlock()
+	h.store.inner.SetMaxBytes(h.maxBytes)
 	return h.observe(w[0]) + " w=" + res()
+}
+
+// raceRouted holds a write at the schedule point between Write's two critical sections (routed under c.mu, stream
+// lock not yet taken), lets a GET run to completion, then releases the write. `win=1`: the site exists in this tree
+// and the write was parked there; `win=0`: not instrumented — the write simply completed before the GET.
+func (h *rzHarness) raceRouted(toks []string) string {
+	bar := -1
+	for i, t := range toks {
+		if t == "|" {
+			bar = i
+		}
+	}
+	if bar < 0 {
+		return "bad-op"
+	}
+	w, g := toks[1:bar], toks[bar+1:]
+	key := w[0] + "." + w[1] + "." + w[2]
+	h.mu.Lock()
+	c := h.calls[key]
+	h.mu.Unlock()
+	if c == nil {
+		return "nocall"
+	}
+	ctx := c.ctx
+	if w[4] == "d" {
+		ctx = context.Background()
+	}
+	tag := strings.Join([]string{w[0], w[1], w[2], w[4], w[5]}, ".")
+	gate := make(chan struct{})
+	if h.store != nil {
+		h.store.inner.SetMaxBytes(0) // as in race(): no eviction inside the race
+	}
+	h.mu.Lock()
+	h.yieldSite, h.yieldGate, h.yielded = "streamable.Write.routed", gate, false
+	h.mu.Unlock()
+	res := h.emit(c, w[3], ctx, tag)
+	synctest.Wait()
+	h.mu.Lock()
+	win := h.yielded
+	h.yieldSite = ""
+	h.mu.Unlock()
+	h.serve(h.getReq(g[0], rzKV(g)))
+	synctest.Wait()
+	close(gate)
+	synctest.Wait()
+	h.mu.Lock()
+	h.yieldGate, h.yielded = nil, false
+	h.mu.Unlock()
+	if h.store != nil {
+		h.store.inner.SetMaxBytes(h.maxBytes)
+	}
+	ws := "0"
+	if win {
+		ws = "1"
+	}
+	return h.observe(w[0]) + " w=" + res() + " win=" + ws
 }
 
 // abandon cancels the pending server->client calls of a session (Close would wait for them).
@@ -1139,6 +1326,7 @@ func rzYield() {
 
 // finish releases everything so that the bubble can exit.
 func (h *rzHarness) finish() {
+	defer verifYieldHook.Store(nil)
 	h.drainCancelled()
 	h.mu.Lock()
 	h.finishing = true
@@ -1256,6 +1444,8 @@ type rzGen struct {
 	stop      bool
 	// coverage of the case
 	cuts, resumes, races int
+	prng   *rand.Rand // decisions about store evictions (separate stream: the other choices stay what they were)
+	purges int
 }
 
 func (g *rzGen) find(name string) *rzGSess {
@@ -1351,7 +1541,7 @@ func (g *rzGen) do(op string, tags ...string) string {
 				if len(toks) > 1 {
 					sess = toks[1]
 				}
-				if toks[0] == "racewg" || toks[0] == "racegw" {
+				if toks[0] == "racewg" || toks[0] == "racegw" || toks[0] == "racerg" {
 					sess = toks[1]
 				}
 				g.hang[n] = sess
@@ -1560,6 +1750,12 @@ func (g *rzGen) hangingOf(s *rzGSess) []int {
 }
 
 func (g *rzGen) stepStateful() {
+	if g.store && g.prng != nil && g.nsess > 0 && g.prng.Intn(100) < 5 {
+		// the store comes under memory pressure: squeeze it once (evicts the oldest entries of every stream)
+		g.purges++
+		g.do(fmt.Sprintf("purge %d", 1+g.prng.Intn(700)), "purge")
+		return
+	}
 	live := g.liveSess()
 	if len(live) == 0 || (len(g.sess) < g.maxSess && g.chance(12)) {
 		if len(g.sess) < g.maxSess {
@@ -1589,6 +1785,26 @@ func (g *rzGen) stepStateful() {
 	switch {
 	case r < 14:
 		if len(parked) < 4 {
+			if g.store && g.prng != nil && g.prng.Intn(100) < 10 {
+				// two POSTs with the same (free) call id, the first one held inside EventStore.Open while the second arrives
+				inflight := map[int]bool{}
+				for _, q := range parked {
+					inflight[q.id] = true
+				}
+				id := 0
+				for k := 1; k <= 6; k++ {
+					if !inflight[k] {
+						id = k
+						break
+					}
+				}
+				if id != 0 {
+					x := g.nex + 2 // the second POST is the one that is accepted
+					g.do(fmt.Sprintf("duprace %s ids=%d hv=%s", s.name, id, g.version()), "duprace")
+					s.reqs = append(s.reqs, &rzGReq{id: id, x: x})
+					return
+				}
+			}
 			g.call(s)
 			return
 		}
@@ -1637,6 +1853,9 @@ func (g *rzGen) stepStateful() {
 				op := "racewg"
 				if g.chance(50) {
 					op = "racegw"
+				}
+				if g.prng != nil && g.prng.Intn(100) < 30 {
+					op = "racerg" // inside the window between Write's two critical sections
 				}
 				flag := "c"
 				if g.chance(30) {
@@ -1764,7 +1983,14 @@ func rzGenCase(t *testing.T, out *verifOut, c int, prop string) (cuts, resumes, 
 		g := &rzGen{rng: rng, out: out, cs: cs, prop: prop, hang: map[int]string{}, idReuse: os.Getenv("VERIF_RESUME_IDREUSE") == "1"}
 		// configuration: C08 concentrates on stateful SSE with a store; C10 spreads over the matrix
 		r := rng.Intn(100)
-		if prop == "C10" {
+		if prop == "C02" {
+			// id bookkeeping on the streamable server: stateful, mostly without a store (an undeliverable response is dropped),
+			// cuts, and ids from a small pool reused after completion
+			g.stateless = false
+			g.jsonMode = r%4 == 0
+			g.store = r%5 == 0
+			g.maxSess = 1 + rng.Intn(2)
+		} else if prop == "C10" {
 			g.stateless = r%4 == 0
 			g.jsonMode = (r/4)%3 == 0
 			g.store = (r/12)%3 != 0
@@ -1791,6 +2017,11 @@ func rzGenCase(t *testing.T, out *verifOut, c int, prop string) (cuts, resumes, 
 		out.line(cs, "reset", "ok", "reset")
 		g.h = rzNewHarness(t, g.stateless, g.jsonMode, g.store)
 		out.line(cs, fmt.Sprintf("cfg %s %s %s", mode, resp, st), "ok", "cfg", "cfg-"+mode+"-"+resp+"-"+st)
+		g.prng = verifRng(int64(c) + 7777777)
+		if g.store && !g.stateless && g.prng.Intn(100) < 12 {
+			// a small standing limit: appends evict as they go
+			g.do(fmt.Sprintf("maxbytes %d", 150+g.prng.Intn(1500)), "maxbytes")
+		}
 		n := 8 + rng.Intn(28)
 		for i := 0; i < n && !g.stop; i++ {
 			if g.stateless {
@@ -1814,6 +2045,9 @@ func rzGenCase(t *testing.T, out *verifOut, c int, prop string) (cuts, resumes, 
 		}
 		if len(g.sess) > 1 {
 			tags = append(tags, "case-multi-session")
+		}
+		if g.purges > 0 {
+			tags = append(tags, "case-with-purge")
 		}
 		out.line(cs, "endcase", "ok", append([]string{"endcase"}, tags...)...)
 		cuts, resumes, races = g.cuts, g.resumes, g.races
